@@ -209,7 +209,7 @@ fn build(raw: &[u16], regime: u8) -> ArithCase {
                 }
             }
             VarDecl::Sparse { values } => values[g.below(values.len())],
-            VarDecl::Bool => 0,
+            VarDecl::Bool | VarDecl::PredLit { .. } => 0,
         };
         vars.push(decl);
         witness.push(w);
